@@ -171,8 +171,12 @@ impl<C: UistClient> SendOrder<Order> for UistBroker<C> {
                     return UistBrokerEvent::OrderInvalid(order.clone());
                 }
 
-                self.http_client
-                    .insert_order(order.clone(), self.backtest_id);
+                //Futures do nothing unless driven to completion, the order is only sent once the
+                //future returned by the client has been polled
+                let _ = executor::block_on(
+                    self.http_client
+                        .insert_order(order.clone(), self.backtest_id),
+                );
                 //From the point of view of strategy, an order pending is the same as an order
                 //executed. If the order is executed, then it is executed. If the order isn't
                 //executed then the strategy must wait but all the strategy's work has been
